@@ -145,6 +145,13 @@ BuildAllowed(b, obs) ==
      /\ ~MustFail(b)
      /\ obs.payload = Payload(b)
 
+\* C01 / C02 through the batteries-included layer: what PasetoParser::default() says about the
+\* token built in state b.  Caller-supplied time values are far-future instants in every
+\* concretisation, so a caller nbf is "not yet valid" and a caller or default exp is in the future.
+\* @type: ($bstate) => Str;
+DefaultParserVerdict(b) ==
+  IF Ready(b).claims["nbf"] \in CallerVals THEN "claim" ELSE "ok"
+
 (***************************************************************************)
 (* Properties of the model itself (checked by MC_Builder on every          *)
 (* reachable builder state): what the code-shaped model computes is        *)
